@@ -7,7 +7,8 @@ import numpy as np
 from common import *  # noqa
 import axiom_table as T
 
-FILES = ["Spec/MetricSpec", "Proofs/MetricAxioms", "Props/C08_basic", "Props/C08_triangle", "Props/C06", "Props/C08"]
+FILES = ["Spec/MetricSpec", "Proofs/MetricAxioms", "Props/C08_basic", "Props/C08_triangle", "Props/C06", "Props/C08",
+         "Model/MetricSym", "Proofs/FloatSym", "Proofs/FloatZero", "Proofs/FloatTable"]
 
 
 def gen_vec(rng, dom, n, shape=None):
@@ -137,6 +138,9 @@ def main(tier, seed):
                     seen_keys.add(key)
                     rep.violation(msg, dict(metric=name, x=xl, y=yl, z=zl), key=key)
     rep.corr["axiom_oracle"] = dict(cases=stats["evaluations"], distribution=stats)
+    # float-level exactness (Props/C08_float.v): bitwise symmetry and exact zero self-distance of the accepted identifiers
+    import c08_float
+    c08_float.run(rep, d, gen_vec, tier, seed)
     rep.extra["oracle_violations"] = nviol
     rep.samples = [dict(metric="canberra", domain="pos", claims=T.claims("canberra")),
                    dict(metric="kullback_leibler", domain="prob", claims=T.claims("kullback_leibler"))]
@@ -152,6 +156,9 @@ def replay(path):
     setup_impl_env()
     import opfython.math.distance as d
     r = json.load(open(path))["replay"]
+    if r.get("check") in ("float_sym", "float_zero"):
+        import c08_float
+        return c08_float.replay(r, d)
     v = float(d.DISTANCES[r["metric"]](np.array(r["x"], dtype=float), np.array(r["y"], dtype=float)))
     print("replay: %s(x, y) = %r" % (r["metric"], v))
     return 0 if math.isfinite(v) else 1
